@@ -154,18 +154,8 @@ def away(r, vals, eps=1e-7):
     return all(np.min(np.abs(r - v)) > eps for v in vals)
 
 
-def exact_centre(rmax, n):
-    return n % 2 == 0 or np.linspace(-rmax, rmax, n)[n // 2] == 0.0
-
-
 def pick_rmax(rng, n, choices):
-    """r_max for a symmetric grid whose middle point is exactly 0.0 (np.linspace leaves a rounding residue there for
-    about 10 % of the values: finding C11:symmetric-centre-not-exact-zero, exercised by the search)"""
-    for _ in range(200):
-        rmax = float(rng.choice(choices + [float(rng.uniform(1, 50))]))
-        if exact_centre(rmax, n):
-            return rmax
-    return float(choices[0])
+    return float(rng.choice(choices + [float(rng.uniform(1, 50))]))
 
 
 def correspondence_objects(ctx, rng, ns, n_idx):
@@ -334,14 +324,6 @@ def search(ctx, rng, budget):
         if not ok:
             hits.append(make_hit(name, args, detail, keyf(name, args, detail)))
     def gen_key(name, args, d):
-        if name in ('step', 'poly_wrapper', 'gaussian'):
-            n, rmax = args[0], args[1]
-            sym = args[6] if name == 'step' else (args[3] if name == 'poly_wrapper' else args[5])
-            if sym and n % 2 and not exact_centre(rmax, n):
-                if name == 'step' and 'must start with 0.0' in d:
-                    return 'C11:symmetric-centre-not-exact-zero'
-                if name == 'poly_wrapper' and d.startswith('func[%d]' % (n // 2)):
-                    return 'C11:symmetric-centre-not-exact-zero'
         return 'C11:%s:%s' % (name, d.split('[')[0].split('=')[0][:40])
     names = ['Dribinski', 'Gaussian', 'Gerber', 'O2', 'Ominus']
     for it in range(budget):
